@@ -293,6 +293,7 @@ def rule_Q4(ctx) -> None:
     fdi = mod.func("Message._from_dict_init")
     sites = _duration_text_sites(mod)
     bad = None
+    bad_int = None
     for fn in sites:
         src = ast.unparse(fn)
         splits = [n for n in ast.walk(fn) if isinstance(n, ast.Call) and isinstance(n.func, ast.Attribute) and n.func.attr in ("split", "partition")
@@ -301,9 +302,37 @@ def rule_Q4(ctx) -> None:
         signed = any(isinstance(n, ast.Call) and isinstance(n.func, ast.Attribute) and n.func.attr == "startswith" and n.args and
                      isinstance(n.args[0], ast.Constant) and n.args[0].value == "-" for n in ast.walk(fn)) or "< 0" in src or "abs(" in src or "copysign" in src \
             or any(isinstance(n, ast.Compare) and any(isinstance(c, ast.Constant) and c.value == "-" for c in [n.left] + n.comparators) for n in ast.walk(fn))
+        # sign taken from the text: startswith('-') / comparison with '-' / abs / copysign / a float of the whole text
+        text_signed = any(isinstance(n, ast.Call) and isinstance(n.func, ast.Attribute) and n.func.attr == "startswith" and n.args and
+                          isinstance(n.args[0], ast.Constant) and n.args[0].value == "-" for n in ast.walk(fn)) or "abs(" in src or "copysign" in src \
+            or any(isinstance(n, ast.Compare) and any(isinstance(c, ast.Constant) and c.value == "-" for c in [n.left] + n.comparators) for n in ast.walk(fn))
+        if splits and td_calls and not text_signed:
+            # the only sign handling is a comparison with 0: of what?  int(<part before the '.'>) is 0 for '-0', so the
+            # sign of durations in (-1 s, 0) is lost there
+            int_parts = set()
+            seconds_vars = set()
+            for st in ast.walk(fn):
+                if isinstance(st, ast.Assign) and isinstance(st.value, ast.Call) and isinstance(st.value.func, ast.Attribute) and st.value.func.attr in ("split", "partition") \
+                        and isinstance(st.targets[0], ast.Tuple) and st.targets[0].elts and isinstance(st.targets[0].elts[0], ast.Name):
+                    seconds_vars.add(st.targets[0].elts[0].id)
+            for st in ast.walk(fn):
+                if isinstance(st, ast.Assign) and len(st.targets) == 1 and isinstance(st.targets[0], ast.Name) and isinstance(st.value, ast.Call) and ast.unparse(st.value.func) == "int" \
+                        and st.value.args and any(isinstance(x, ast.Name) and x.id in seconds_vars for x in ast.walk(st.value.args[0])):
+                    int_parts.add(st.targets[0].id)
+            zero_tests = [n for n in ast.walk(fn) if isinstance(n, ast.Compare) and any(isinstance(c, ast.Constant) and c.value == 0 and not isinstance(c.value, bool) for c in [n.left] + n.comparators)
+                          and isinstance(n.ops[0], (ast.Lt, ast.LtE, ast.Gt, ast.GtE))]
+            on_int_part = [n for n in zero_tests if any((isinstance(x, ast.Name) and x.id in int_parts) or
+                                                        (isinstance(x, ast.Call) and ast.unparse(x.func) == "int" and x.args and any(isinstance(y, ast.Name) and y.id in seconds_vars for y in ast.walk(x.args[0])))
+                                                        for x in [n.left] + n.comparators)]
+            if zero_tests and len(on_int_part) == len(zero_tests):
+                bad_int = (fn, on_int_part[0])
         if splits and td_calls and not signed:
             bad = (fn, splits[0])
-    if bad:
+    if bad is None and bad_int is not None:
+        ctx.refuted("Q4", "duration-parser:negative-durations", "sign-from-integer-part", mod.loc(bad_int[1]),
+                    f"the sign of the parsed Duration is taken from `{ast.unparse(bad_int[1])}`, the integer part of the text: int('-0') is 0, so '-0.500s' (any duration between -1 s and 0) "
+                    "is read back positive", "M().from_json('{\"d\": \"-0.500s\"}')")
+    elif bad:
         ctx.refuted("Q4", "duration-parser:negative-durations", "split-without-sign", mod.loc(bad[1]),
                     "the Duration text is split at '.' and the fractional part converted separately with no sign handling: '-1.500s' parses as -0.5 s",
                     "M().from_json('{\"d\": \"-1.500s\"}')")
